@@ -302,8 +302,9 @@ def run(tier, seed, only=None):
     ck.trusted += ["hand-written model coq/Model/C12Phases.v, C12Map.v (tied to /repo by the correspondence on every run)",
                    "correspondence harness tools/impl/c12.py + canonicalisation in tools/props/C12.py",
                    "numpy semantics assumed and differentially tested: np.unique = sorted set, boolean-mask assignment "
-                   "(broadcast of length-1 values, ValueError on other length mismatches), ambiguous truth value of "
-                   "arrays with != 1 element (numpy >= 2.2 also for empty arrays), astype(int) truncates toward zero",
+                   "(broadcast of length-1 values, ValueError on other length mismatches, conversion of the assigned "
+                   "values to the array's dtype), np.any(value == -1), np.result_type(int64, float64) = float64, "
+                   "np.all of a mask, astype(int) truncates toward zero",
                    "python dict = insertion-ordered map; sorted(d.items()) = stable sort on unique keys",
                    "Phase objects are taken as observed (name, point-group name, space-group number); the "
                    "space-group -> point-group derivation is C03's subject"]
@@ -352,8 +353,7 @@ def run(tier, seed, only=None):
     ck.cov["exhaustive_sweep"] = ("construction: every non-empty id set over {-1,0,1,3} x every phase list with ids from "
                             "{-1,0,1,2,3} of size <= %d (model validation only, not the theorem)"
                             % (3 if tier == "quick" else 4))
-    ck.cov["partial_or_refuted"] = ["C12_set_phase_id_array_refuted", "C12_set_prop_frame_refuted",
-                                    "C12_phases_in_data_refuted", "C12_init_not_indexed_refuted"]
+    ck.cov["partial_or_refuted"] = ["C12_phases_setter_guard_partial"]
     ck.cov["rule"] = ("1/3 phase-list programs (constructor by phases / phases+ids / dict / fields with unequal lengths, "
                       "duplicate, unsorted, sparse ids, with -1; then 1-6 add/del/add_not_indexed/sort/index ops with "
                       "keys of every kind incl. missing ids/names, empty containers, slices with negative/zero steps), "
